@@ -26,7 +26,7 @@ import (
 
 type WIn struct {
 	Name  string `dials:"name"`
-	Count int    `dials:"count" dialsalias:"cnt"`
+	Count int    `dials:"count" dialsalias:"oldCnt"`
 }
 
 type WEmb struct {
@@ -44,7 +44,7 @@ type CfgWrap struct {
 	Stamp  uint64
 	StampB uint64
 	WGuard
-	N    int    `dials:"n" dialsalias:"num"`
+	N    int    `dials:"n" dialsalias:"oldNum"`
 	Str  string `dials:"str_val"`
 	Dur  time.Duration
 	Set  map[string]struct{}
@@ -290,7 +290,8 @@ func fillNative(v reflect.Value, names []string, id uint64, own string) (anySet 
 }
 
 type WrapSpec struct {
-	Kind     string   `json:"kind"` // twatch | tstatic | blank-static | blank-watch | blank-twatch | blank-only
+	Nest     int      `json:"nest,omitempty"` // >0: two directly nested transforming sources, the outer one with the first Nest manglers of the list, the inner one with the rest
+	Kind     string   `json:"kind"`           // twatch | tstatic | blank-static | blank-watch | blank-twatch | blank-only
 	Manglers []string `json:"manglers"`
 	InitID   uint64   `json:"init_id"`
 	Fault    string   `json:"fault,omitempty"` // value-err | watch-err | both-alias
@@ -319,6 +320,9 @@ func genWrap(seed uint64, faulty bool) *Scenario {
 		if w.Fault == "both-alias" && !contains(w.Manglers, "alias") {
 			w.Manglers = append([]string{"alias"}, w.Manglers...)
 		}
+	}
+	if len(w.Manglers) >= 2 && g.pct(35) {
+		w.Nest = g.in(1, len(w.Manglers)-1)
 	}
 	sc.Wrap = w
 	// the wrapped side's program
@@ -433,7 +437,24 @@ func unsetValue(t *dials.Type, id uint64) reflect.Value {
 	return p.Elem()
 }
 
+// curWrap is the run under way; wrapInnerType is the type its innermost
+// sources must be asked for: the config type as ONE transformer with the run's
+// mangler list translates it, however the wrappers are nested.
+var (
+	curWrap       *wrapRun
+	wrapInnerType reflect.Type
+	skipInnerType bool
+)
+
+func checkInnerType(t *dials.Type, where string) {
+	if r := curWrap; r != nil && wrapInnerType != nil && !skipInnerType && t.Type() != wrapInnerType {
+		r.probes["inner-type-mismatch"]++
+		r.fail("C20.inner-type", "%s: the source behind the wrappers (manglers %v, nested at %d) was asked for\n  %s\ninstead of\n  %s", where, r.sc.Wrap.Manglers, r.sc.Wrap.Nest, t.Type(), wrapInnerType)
+	}
+}
+
 func (s *wInner) Value(_ context.Context, t *dials.Type) (reflect.Value, error) {
+	checkInnerType(t, "Value")
 	simrt.Yield("inner.Value") // a real source reads something here: others run meanwhile
 	if s.failVal {
 		return reflect.Value{}, errInner
@@ -459,6 +480,7 @@ type wInnerWatch struct {
 }
 
 func (s *wInnerWatch) Watch(ctx context.Context, t *dials.Type, wa dials.WatchArgs) error {
+	checkInnerType(t, "Watch")
 	if s.failWatch {
 		return errInner
 	}
@@ -652,6 +674,17 @@ func runSharedDecoder(sc *Scenario, r *wrapRun, s *simrt.Sim) {
 	}
 }
 
+// wrapT puts src behind the run's manglers: one transforming source, or two
+// directly nested ones (the outer layer's manglers come first in the list:
+// they see the type first and the value last).
+func wrapT(w *WrapSpec, src dials.Source) dials.Source {
+	mg := manglersFor(w.Manglers)
+	if w.Nest > 0 && w.Nest < len(mg) {
+		return sourcewrap.NewTransformingSource(sourcewrap.NewTransformingSource(src, mg[w.Nest:]...), mg[:w.Nest]...)
+	}
+	return sourcewrap.NewTransformingSource(src, mg...)
+}
+
 func runWrap(sc *Scenario, res *Result, keepLog bool) {
 	w := sc.Wrap
 	r := &wrapRun{sc: sc, probes: map[string]int{}, state: "empty"}
@@ -678,6 +711,11 @@ func runWrap(sc *Scenario, res *Result, keepLog bool) {
 	}
 	r.ctx, r.cancel = context.WithCancel(context.Background())
 	mg := manglersFor(w.Manglers)
+	curWrap, wrapInnerType = r, nil
+	defer func() { curWrap, wrapInnerType = nil, nil }()
+	if it, terr := transform.NewTransformer(ptrify.Pointerify(reflect.TypeOf(CfgWrap{}), reflect.ValueOf(CfgWrap{})), manglersFor(w.Manglers)...).TranslateType(); terr == nil {
+		wrapInnerType = it
+	}
 	defaults := func() *CfgWrap { return &CfgWrap{N: 1, Str: "default", Tags: []string{"t0"}, In: WIn{Name: "in0"}} }
 
 	// the wrapped side
@@ -689,14 +727,14 @@ func runWrap(sc *Scenario, res *Result, keepLog bool) {
 	case "twatch":
 		innerW = &wInnerWatch{wInner: wInner{id: w.InitID, own: "Stamp", both: w.Fault == "both-alias", failVal: w.Fault == "value-err"}, failWatch: w.Fault == "watch-err"}
 		r.watchers = append(r.watchers, innerW)
-		wsrc = sourcewrap.NewTransformingSource(innerW, mg...)
+		wsrc = wrapT(w, innerW)
 	case "tstatic":
-		wsrc = sourcewrap.NewTransformingSource(&wInner{id: w.InitID, own: "Stamp", both: w.Fault == "both-alias", failVal: w.Fault == "value-err"}, mg...)
+		wsrc = wrapT(w, &wInner{id: w.InitID, own: "Stamp", both: w.Fault == "both-alias", failVal: w.Fault == "value-err"})
 	case "blank-inside-t":
 		// the other nesting: a Blank behind the transforming source; what is later
 		// set on it lives in the mangled layout and is not wrapped again
 		blank = &sourcewrap.Blank{}
-		wsrc = sourcewrap.NewTransformingSource(blank, mg...)
+		wsrc = wrapT(w, blank)
 		nat.id = 0
 	default:
 		blank = &sourcewrap.Blank{}
@@ -1012,7 +1050,7 @@ func (r *wrapRun) wrapped(c *ClientSpec, blank *sourcewrap.Blank, inner *wInnerW
 			in := &wInner{id: id, own: "Stamp", failVal: op.K == "set-fail", invalid: op.Str == "invalid", unset: op.Str == "unset" && op.K == "set-static"}
 			var src dials.Source = in
 			if (r.sc.Wrap.Kind == "blank-twatch" || len(names) > 0) && r.sc.Wrap.Kind != "blank-inside-t" {
-				src = sourcewrap.NewTransformingSource(in, mg...)
+				src = wrapT(r.sc.Wrap, in)
 			}
 			sctx, scancel := callCtx(op)
 			err := blank.SetSource(sctx, src)
@@ -1066,7 +1104,7 @@ func (r *wrapRun) wrapped(c *ClientSpec, blank *sourcewrap.Blank, inner *wInnerW
 			iw := &wInnerWatch{wInner: wInner{id: id, own: "Stamp", failVal: true}}
 			var src dials.Source = iw
 			if len(names) > 0 && r.sc.Wrap.Kind != "blank-inside-t" {
-				src = sourcewrap.NewTransformingSource(iw, mg...)
+				src = wrapT(r.sc.Wrap, iw)
 			}
 			sctx, scancel := callCtx(op)
 			err := blank.SetSource(sctx, src)
@@ -1093,7 +1131,7 @@ func (r *wrapRun) wrapped(c *ClientSpec, blank *sourcewrap.Blank, inner *wInnerW
 			}
 			var src dials.Source = iw
 			if (r.sc.Wrap.Kind == "blank-twatch" || len(names) > 0) && r.sc.Wrap.Kind != "blank-inside-t" {
-				src = sourcewrap.NewTransformingSource(iw, mg...)
+				src = wrapT(r.sc.Wrap, iw)
 			}
 			sctx, scancel := callCtx(op)
 			err := blank.SetSource(sctx, src)
@@ -1151,9 +1189,11 @@ func (r *wrapRun) wrapped(c *ClientSpec, blank *sourcewrap.Blank, inner *wInnerW
 				continue
 			}
 			before := blankInner.vals
+			skipInnerType = true // (a type of the harness's own, not the config's)
 			if _, err := blank.Value(r.ctx, dials.NewType(reflect.TypeOf(struct{ Stamp *uint64 }{}))); err != nil && r.state != "empty" {
 				_ = err
 			}
+			skipInnerType = false
 			if blankInner.vals == before {
 				r.fail("C20.blank", "Blank.Value did not delegate to the most recently set inner source (state %s)", r.state)
 			}
